@@ -262,21 +262,27 @@ class Topology(ABC):
         """
         # should work with deep sliver reconstruction
         facn = self.add_node(name=name, node_id=node_id, site=site, ntype=NodeType.Facility)
-        facs = facn.add_network_service(name=name + '-ns', node_id=node_id + '-ns' if node_id else None,
-                                        nstype=nstype, labels=nslabels)
-        if not interfaces:
-            # if no interfaces are defined, use implicit definition and kwargs
-            # this is how the code was defined originally
-            faci = facs.add_interface(name=name + '-int', node_id=node_id + '-int' if node_id else None,
-                                      itype=InterfaceType.FacilityPort, **kwargs)
-        else:
-            # if interfaces are defined, assume a list of tuples (name, labels, capacities) are present
-            # this was added to support multiple interfaces per facility
-            iindex = 0
-            for iname, ilabels, icapacities in interfaces:
-                faci = facs.add_interface(name=iname, node_id=node_id + f'-int{iindex}' if node_id else None,
-                                          itype=InterfaceType.FacilityPort, labels=ilabels, capacities=icapacities)
-                iindex += 1
+        try:
+            facs = facn.add_network_service(name=name + '-ns', node_id=node_id + '-ns' if node_id else None,
+                                            nstype=nstype, labels=nslabels)
+            if not interfaces:
+                # if no interfaces are defined, use implicit definition and kwargs
+                # this is how the code was defined originally
+                faci = facs.add_interface(name=name + '-int', node_id=node_id + '-int' if node_id else None,
+                                          itype=InterfaceType.FacilityPort, **kwargs)
+            else:
+                # if interfaces are defined, assume a list of tuples (name, labels, capacities) are present
+                # this was added to support multiple interfaces per facility
+                iindex = 0
+                for iname, ilabels, icapacities in interfaces:
+                    faci = facs.add_interface(name=iname, node_id=node_id + f'-int{iindex}' if node_id else None,
+                                              itype=InterfaceType.FacilityPort, labels=ilabels, capacities=icapacities)
+                    iindex += 1
+        except Exception:
+            # the facility is a single construct: do not leave the node (and the service and ports
+            # added so far) behind when a later step is rejected
+            self.graph_model.remove_network_node_with_components_nss_cps_and_links(node_id=facn.node_id)
+            raise
 
         return facn
 
